@@ -32,6 +32,8 @@ type VerifC14Op struct {
 	Ds     int      `json:"ds"`
 	To     int      `json:"to"`
 	Pub    []int    `json:"pub"`
+	Kind   int      `json:"kind"` // create: 0 plain, 1 proxy, 2 virtual
+	Cfg    int      `json:"cfg"`  // proxy: timeoutSeconds; virtual: the number in the transform string
 	Es     [][4]int `json:"es"` // [entity code, value, ref target (-1 none), deleted]
 	Fs     string   `json:"fs"` // full-sync id
 	Job    int      `json:"job"`
@@ -65,7 +67,8 @@ type VerifC14Feed struct {
 }
 
 type VerifC14Snap struct {
-	Ds      [][]int                 `json:"ds"` // [name code, internal id, pub...]
+	Ds      [][]int                 `json:"ds"` // [name code, internal id, kind, config, pub...]
+	Dsraw   []string                `json:"dsraw"` // per dataset: name, IsProxy, IsVirtual, ProxyConfig and VirtualDatasetConfig as JSON
 	Next    int                     `json:"next"`
 	Del     []int                   `json:"del"`
 	Feeds   map[string]VerifC14Feed `json:"feeds"`
@@ -297,12 +300,25 @@ func (env *verifC14Env) snapshot(probe []int) (s VerifC14Snap) {
 	}
 	sort.Strings(names)
 	s.Ds = make([][]int, 0)
+	s.Dsraw = make([]string, 0)
 	s.Feeds = map[string]VerifC14Feed{}
 	s.Ctx = map[string][]string{}
 	s.Fs = make([][]int, 0)
 	for _, n := range names {
 		ds := env.dsm.GetDataset(n)
-		row := []int{verifC14DsCode(n), int(ds.InternalID)}
+		kind, cfg := 0, 0
+		if ds.IsProxy() {
+			kind, cfg = 1, ds.ProxyConfig.TimeoutSeconds
+		} else if ds.IsVirtual() {
+			kind, cfg = 2, -7
+			if k, err := strconv.Atoi(strings.TrimPrefix(ds.VirtualDatasetConfig.Transform, "t")); err == nil {
+				cfg = k
+			}
+		}
+		pcj, _ := json.Marshal(ds.ProxyConfig)
+		vcj, _ := json.Marshal(ds.VirtualDatasetConfig)
+		s.Dsraw = append(s.Dsraw, fmt.Sprintf("%s proxy=%v virtual=%v %s %s", n, ds.IsProxy(), ds.IsVirtual(), pcj, vcj))
+		row := []int{verifC14DsCode(n), int(ds.InternalID), kind, cfg}
 		for _, p := range ds.PublicNamespaces {
 			x := -1
 			if strings.HasPrefix(p, "http://v") && strings.HasSuffix(p, "/") {
@@ -572,6 +588,13 @@ func (env *verifC14Env) post(name string, start bool, fsID string, end bool, es 
 		return "err", fmt.Errorf("dataset does not exists")
 	}
 	ds := env.dsm.GetDataset(name)
+	if ds.IsProxy() {
+		// the handler forwards the body to the remote hub, which does not exist here
+		return "err", fmt.Errorf("proxy dataset: remote not reachable")
+	}
+	if ds.IsVirtual() {
+		return "err", fmt.Errorf("virtual datasets are read-only")
+	}
 	if start {
 		if err := ds.StartFullSyncWithLease(fsID); err != nil {
 			return "conflict", err
@@ -610,10 +633,17 @@ func (env *verifC14Env) apply(op VerifC14Op) (res string, err error) {
 	switch op.Op {
 	case "create":
 		var cc *server.CreateDatasetConfig
-		if len(op.Pub) > 0 {
+		if len(op.Pub) > 0 || op.Kind != 0 {
 			cc = &server.CreateDatasetConfig{}
 			for _, x := range op.Pub {
 				cc.PublicNamespaces = append(cc.PublicNamespaces, verifC14Exp(x))
+			}
+			if op.Kind == 1 {
+				// the remote is not reachable: nothing in the driver talks to it
+				cc.ProxyDatasetConfig = &server.ProxyDatasetConfig{RemoteURL: "http://127.0.0.1:1/datasets/remote",
+					AuthProviderName: "pa", TimeoutSeconds: op.Cfg}
+			} else if op.Kind == 2 {
+				cc.VirtualDatasetConfig = &server.VirtualDatasetConfig{Transform: "t" + strconv.Itoa(op.Cfg)}
 			}
 		}
 		if _, err := env.dsm.CreateDataset(verifC14DsName(op.Ds), cc); err != nil {
